@@ -335,6 +335,25 @@ func runC11(c *Ctx) {
 		pb, _ := plain.Pack()
 		c.Op("digest", fmt.Sprintf("tsig.digest %s %d %s %d %s %d %d %d %s %s %s", hx(pb), tsr.OrigId, hxs(keyName), tsr.Hdr.Ttl, hxs(tsr.Algorithm),
 			ts, effFudge, tsr.Error, strOrDash(tsr.OtherData), strOrDash(reqMAC), b01(timers)), hx(rp.inputs[0]), true)
+		// (a2) the buffer TsigGenerate returns = the model's: ID replaced by OrigId, TSIG record appended, ARCOUNT + 1
+		if len(out) > len(pb) {
+			c.Op("generate-model", fmt.Sprintf("tsig.generate %s %d %s", hx(pb), tsr.OrigId, hx(out[len(pb):])), hx(out), true)
+		}
+		// (a3) tsigVerify as a whole on the model: strip, digest, algorithm, MAC, window — on the generated message, on the
+		//      message without its TSIG record, on truncations and on damaged copies
+		tsigModelOp(c, "verify-model", out, reqMAC, timers, uint64(ts))
+		tsigModelOp(c, "verify-model", out, reqMAC, timers, uint64(ts)+uint64(effFudge)+1)
+		tsigModelOp(c, "verify-model", pb, reqMAC, timers, uint64(ts))
+		for k2 := 0; k2 < 3; k2++ {
+			if hb := mutateBytes(r, out); len(hb) > 0 {
+				tsigModelOp(c, "verify-model-hostile", hb, reqMAC, timers, uint64(ts))
+			}
+		}
+		if len(out) < 300 && i%4 == 0 {
+			for cutAt := 0; cutAt < len(out); cutAt++ {
+				tsigModelOp(c, "verify-model-hostile", out[:cutAt], reqMAC, timers, uint64(ts))
+			}
+		}
 		// (b) layout: packed message (ID = OrigId), then the TSIG as last additional, ARCOUNT + 1
 		f, ok := indepStrip(out)
 		lay := ok && f.wellEnded && len(out) > len(pb) && be16(out, 10) == be16(pb, 10)+1 && string(out[2:10]) == string(pb[2:10]) &&
@@ -391,6 +410,9 @@ func runC11(c *Ctx) {
 				t2 := append([]byte{}, out2...)
 				t2[bit/8] ^= 1 << uint(bit%8)
 				err := dns.VerifTsigVerify(append([]byte{}, t2...), secB64, reqMAC, timers, uint64(ts))
+				if bit%3 == 0 {
+					tsigModelOp(c, "verify-model-bits", t2, reqMAC, timers, uint64(ts))
+				}
 				f2, ok2 := indepStrip(t2)
 				if err == nil {
 					// verify_only_if: success implies the MAC is the RFC HMAC of what was parsed, within the window
